@@ -97,9 +97,10 @@ def generate(family, rng, tier):
         names = ["led", "btn", "serial", "spi"]
         for nm in names:
             for k in range(rng.randint(0, 3)):
-                io.append([nm, k])
+                # serial / spi are mostly resources made of sub-signals (a Record is handed out), the others plain pin lists
+                io.append([nm, k, "record" if (nm in ("serial", "spi") and rng.random() < 0.7) else "pins"])
         rng.shuffle(io)
-        ext = [[rng.choice(names + ["ext"]), rng.randint(0, 3)] for _ in range(rng.randint(0, 3))]
+        ext = [[rng.choice(names + ["ext"]), rng.randint(0, 3), rng.choice(["pins", "pins", "record"])] for _ in range(rng.randint(0, 3))]
         reqs = []
         for i in range(rng.randint(2, 10)):
             r = rng.random()
@@ -288,9 +289,14 @@ def run_platform(scn):
     p = scn["params"]
     viols = []
     V = mkV(viols)
-    mk = lambda nm, k: (nm, k, Pins("P%s%d" % (nm, k)), IOStandard("LVCMOS33"))  # noqa
-    cm = ConstraintManager([mk(nm, k) for nm, k in p["io"]], [])
-    ext = [mk(nm, k) for nm, k in p["ext"]]
+    from litex.build.generic_platform import Subsignal
+
+    def mk(nm, k, kind="pins"):
+        if kind == "record":
+            return (nm, k, Subsignal("tx", Pins("T%s%d" % (nm, k))), Subsignal("rx", Pins("R%s%d" % (nm, k))), IOStandard("LVCMOS33"))
+        return (nm, k, Pins("P%s%d" % (nm, k)), IOStandard("LVCMOS33"))
+    cm = ConstraintManager([mk(*e) for e in p["io"]], [])
+    ext = [mk(*e) for e in p["ext"]]
     granted = {}     # (name, number) -> count
     checks = 0
     acc = rej = 0
@@ -314,7 +320,8 @@ def run_platform(scn):
                 ext = []
                 continue
             acc += 1
-        except (ConstraintError, ValueError):
+        except (ConstraintError, ValueError, TypeError):
+            # (TypeError: request_all() on resources made of sub-signals cannot concatenate the Records - refused with an error)
             rej += 1
             continue
         # every platform resource matched at most once; matched and available are disjoint
